@@ -46,6 +46,7 @@ def open_reader(fc, data, backend, preload=False):
 
 def run(run):
     run.mc('MC_Reader', f'MC_Reader_C07_{run.tier}')
+    run.mc('MC_HeaderIo', 'MC_HeaderIo', workers=4)
     rng = np.random.default_rng(run.seed)
     quick = run.tier == 'quick'
     fx = inputs.fixture_sgz()
@@ -153,9 +154,95 @@ def run(run):
                 run.check(ok, f'C07.preload-value[{op}]', case, detail, 'ideal')
             with env.quiet():
                 r.close()
+    header_histories(run, [c for c in cases if any(k in c.label for k in ('small_8bit.', 'small-irregular', 'small-2d', 'padding_6x7')) or c.label.startswith('numpy(9, 10, 70)')])
+
+
+def header_histories(run, cases, only=None):
+    """header accessors as a small state machine (SgzHeaderIo): every history of length 3 over {header of the first / last trace, tracefield of
+    the first / last stored word, clear} on one reader; per step the recorded range reads against what the model derives for the REAL file"""
+    import itertools
+    import segyio
+    from .. import tlc
+    jobs = []
+    for fc in cases:
+        if not fc.stored:
+            continue
+        F = fc.F
+        tc = readcalls.tracecount(F)
+        kind = '2d' if F['dim'] == 2 else ('irregular' if F['mask'] else 'regular')
+        tpl = {}
+        # stored-array index of every stored word; the inline word may alias another stored array
+        maskarr = (fc.stored.index(189) + 1) if 189 in fc.stored else (fc.stored.index(fc.alias[189]) + 1 if 189 in fc.alias and fc.alias[189] in fc.stored else 1)
+        ops = [('gen_trace_header', 0), ('gen_trace_header', tc - 1), ('get_tracefield_values', 1), ('get_tracefield_values', len(fc.stored)), ('clear', 0)]
+        hs = list(itertools.product(range(len(ops)), repeat=3))
+        if run.tier == 'quick':
+            hs = hs[::2]
+        for h in hs:
+            hist = [ops[i] for i in h]
+            if only is not None and (fc.label, [list(x) for x in hist]) != only:
+                continue
+            jobs.append((fc, kind, maskarr, hist))
+    if not jobs:
+        return
+    items = [{'F': {k: v for k, v in fc.F.items() if k in ('dim', 'n', 'b', 'ub', 'hblk', 'padfoot', 'narr', 'ntr')}, 'kind': kind, 'dup': len(fc.alias),
+              'maskarr': maskarr, 'history': [[op, a if op != 'gen_trace_header' or kind != 'irregular' else a] for op, a in hist]} for fc, kind, maskarr, hist in jobs]
+    out = tlc.oracle('Gen_HeaderIo', {'items': items}, key='items', per_shard=100)
+    run.add_tlc({'distinct': 0, 'generated': out['_tlc']['generated'], 'wall_s': out['_tlc']['wall_s']}, 'Gen_HeaderIo')
+    for (fc, kind, maskarr, hist), ev in zip(jobs, out['items']):
+        lay = fc.layout
+        case = {'file': fc.label, 'op': 'header-history', 'history': [list(x) for x in hist]}
+        run.case(case)
+        r, h = open_reader(fc, fc.ref.bytes, 'local')
+        h.take()
+        bad = None
+        drift = None
+        try:
+            for (op, a), st in zip(hist, ev['steps']):
+                with env.quiet():
+                    if op == 'gen_trace_header':
+                        r.gen_trace_header(a)
+                    elif op == 'get_tracefield_values':
+                        r.get_tracefield_values(fc.stored[a - 1])
+                    else:
+                        r.clear_variant_headers()
+                got = sorted((off, n) for off, n, _ in h.take())
+                want = sorted((x[0], x[1]) for x in st['reads'])
+                infoot = all(any(o <= off and off + n <= o + lay['entry_bytes'] for o in lay['array_offsets']) for off, n in got)
+                if not infoot:
+                    bad = ('C07.header-reads-in-footer', got[:4], want[:4])
+                elif op == 'gen_trace_header' and kind == 'regular' and got != want:
+                    bad = ('C07.header-4-bytes-per-array', got[:6], want[:6])
+                elif sum(n for _, n in got) > sum(n for _, n in want):
+                    bad = ('C07.header-no-extra-io', got[:4], want[:4])
+                elif got != want and drift is None:
+                    drift = (op, a, got[:3], want[:3])
+                if bad:
+                    break
+        except BaseException as e:
+            if isinstance(e, (KeyboardInterrupt, SystemExit, MemoryError)):
+                raise
+            bad = ('C07.header-call-ok', f'{type(e).__name__}: {e}', 'a header')
+        finally:
+            with env.quiet():
+                r.close()
+        if bad:
+            run.fail(bad[0], case, bad[1], bad[2])
+        else:
+            run.ok('C07.header-history')
+            if drift:
+                run.drift(f'{case}: header reads {drift}')
+            else:
+                run.traces_validated += 1
 
 
 def replay(run, rep):
+    if rep['case'].get('op') == 'header-history':
+        case = rep['case']
+        fx = [p for p in inputs.fixture_sgz() if p.endswith('/' + case['file'])]
+        pool = [session.FileCase(fx[0])] if fx else c02.written_files(run, 'thorough') + c02.written_2d(run, 'thorough')
+        cs = [c for c in session.load_files(pool, run) if c.label == case['file']]
+        header_histories(run, cs, only=(case['file'], case['history']))
+        return
     from ..props import c02 as _c02
     case = rep['case']
     fx = [p for p in inputs.fixture_sgz() if p.endswith('/' + case['file'])]
